@@ -32,6 +32,9 @@ macro_rules! src { ($n:ident, $item:ty) => {
 src!{Src, u8}
 src!{SrcR, &'static u8}
 src!{Oth, u16}
+src!{Sub, u8}
+src!{SrcS, Sub}
+#[inline(never)] pub fn fl<T, const K: u32>(x: T) -> Sub { loop {} }
 #[inline(never)] pub fn pr<T, const K: u32>(x: &T) -> bool { loop {} }
 #[inline(never)] pub fn mp<T, const K: u32>(x: T) -> T { loop {} }
 #[inline(never)] pub fn fm<T, const K: u32>(x: T) -> Option<T> { loop {} }
@@ -41,6 +44,7 @@ src!{Oth, u16}
 
 ADAPTERS = ["copied", "enumerate", "filter", "filter_map", "map", "rev", "skip", "skip_while", "take", "take_while", "zip"]
 CONSUMERS = ["for_each", "all", "any", "count", "find", "find_map", "rfind", "fold", "rfold", "next", "nth", "position", "rposition"]
+FLATS = ["flat_map", "flatten"]
 REVERSERS = {"rev", "rfind", "rfold", "rposition"}
 POSITIONAL_STD_OK = {"take", "skip", "zip"}        # std accepts these before a reverser (ExactSize + DoubleEnded)
 POSITIONAL_STD_REJECTS = {"take_while", "skip_while"}   # TakeWhile/SkipWhile are not DoubleEndedIterator: no std counterpart
@@ -63,7 +67,18 @@ class Chain:
         revs = [m for m in a + [self.consumer] if m in REVERSERS]
         if len(revs) > 1:
             return False
+        fl = [i for i, m in enumerate(a) if m in FLATS]
+        if len(fl) > 1:
+            return False
+        if fl and a[fl[0]] == "flatten" and any(m != "rev" for m in a[:fl[0]]):
+            return False      # flatten needs items that are iterators: only the SrcS source (possibly reversed) provides them
         return True
+
+    def flat_at(self):
+        for i, m in enumerate(self.adapters):
+            if m in FLATS:
+                return i
+        return None
 
     def reversed_(self):
         return any(m in REVERSERS for m in self.adapters + [self.consumer])
@@ -71,8 +86,8 @@ class Chain:
 
 def source_of(ch, idx, K):
     """rust source of the witness function + parameter layout"""
-    src_ty = "SrcR" if ch.adapters[:1] == ["copied"] else "Src"
-    item = "&'static u8" if src_ty == "SrcR" else "u8"
+    src_ty = "SrcR" if ch.adapters[:1] == ["copied"] else "SrcS" if "flatten" in ch.adapters else "Src"
+    item = "&'static u8" if src_ty == "SrcR" else "Sub" if src_ty == "SrcS" else "u8"
     params = ["s: %s" % src_ty]
     calls = []
     pnames = {}
@@ -93,6 +108,12 @@ def source_of(ch, idx, K):
             calls.append("map(|x| mp::<_, %d>(x))" % (K + j))
         elif m == "rev":
             calls.append("rev()")
+        elif m == "flat_map":
+            calls.append("flat_map(|x| fl::<_, %d>(x))" % (K + j))
+            item = "u8"
+        elif m == "flatten":
+            calls.append("flatten()")
+            item = "u8"
         elif m in ("skip", "take"):
             params.append("n%d: usize" % j)
             pnames[j] = nparam
@@ -151,6 +172,9 @@ def norm(t):
     """call terms keep only their const-generic marker id; Option paths in one spelling"""
     if not isinstance(t, tuple) or not t:
         return t
+    if t[0] == "call" and t[1] == "core::mem::ManuallyDrop::into_inner" and len(t) == 4 and t[3][0] == "call" \
+            and t[3][1] == "core::mem::ManuallyDrop::new" and len(t[3]) == 4:
+        return norm(t[3][3])          # into_iter_macro!'s wrapper: into_inner(new(x)) is x
     if t[0] == "call":
         if t[2] is None or isinstance(t[2], int):
             return ("call", t[1], t[2]) + tuple(norm(x) for x in t[3:])
@@ -197,26 +221,47 @@ class RefPath:
         self.item = None
         self.kind = None
         self.value = None
+        self.phase = 1          # 2 = inside the loop over a flat_map/flatten sub-iterator
+        self.upd2 = {}          # updates of inner-loop-carried state (phase 2, when the inner loop exists)
+        self.pre = {}           # values the inner-loop-carried state has on entry to the inner loop
+        self.mark = None        # (#conds, #events) at entry to the inner loop
 
     def fork(self):
         r = RefPath()
         r.conds, r.events, r.upd, r.item = list(self.conds), list(self.events), dict(self.upd), self.item
+        r.phase, r.upd2, r.pre, r.mark = self.phase, dict(self.upd2), dict(self.pre), self.mark
         return r
 
 
-def reference(ch, V, src_ty, K):
-    """compose the expected per-iteration relation; V maps abstract state names to ('L', n) symbols"""
+def reference(ch, V, src_ty, K, V2=None):
+    """compose the expected per-iteration relation; V maps abstract state names to ('L', n) symbols.
+    V2 (chains with flat_map/flatten whose inner loop exists in the MIR): symbols of the state carried by the
+    inner loop; path kinds are then exit / back (outer header, straight from the outer body) / back1 (outer header,
+    from the inner loop: sub-iterator exhausted) / back2 (inner header)."""
     dirn = "next_back" if ch.reversed_() else "next"
     done = []
     live = [RefPath()]
 
+    def inner(p, var):
+        return p.phase == 2 and V2 is not None and var in V2
+
     def get(p, var):
-        return p.upd.get(var, V[var])
+        if inner(p, var):
+            return p.upd2.get(var, V2[var])
+        return p.upd.get(var, V.get(var))
+
+    def put(p, var, val):
+        if inner(p, var):
+            p.upd2[var] = val
+        else:
+            p.upd[var] = val
 
     def finish(p, kind):
+        if kind == "back" and p.phase == 2 and V2 is not None:
+            kind = "back2"
         p.kind = kind
         if kind == "exit":
-            p.value = get(p, "RET") if "RET" in V else sym.UNIT
+            p.value = get(p, "RET") if ("RET" in V or (V2 and "RET" in V2)) else sym.UNIT
         done.append(p)
 
     # pull
@@ -230,7 +275,7 @@ def reference(ch, V, src_ty, K):
         p.conds.append(("is", c, 1))
         pay = ("vfield", c, 1, 0)
         p.item = ("field", pay, 0)
-        p.upd["ITER"] = ("field", pay, 1)
+        put(p, "ITER", ("field", pay, 1))
         nxt.append(p)
     live = nxt
     # the direction used by later zip sources: starts as the hoisted direction, every `rev` token toggles it
@@ -240,13 +285,38 @@ def reference(ch, V, src_ty, K):
         for p in live:
             if m == "rev":
                 nxt.append(p)
+            elif m in FLATS:
+                if m == "flat_map":
+                    sub = call("fl", K + j, p.item)
+                    p.events.append(sub)
+                else:
+                    sub = p.item
+                if V2 is not None:
+                    p.pre = {v: p.upd.get(v, V.get(v)) for v in V2 if v != "SUB"}
+                    p.pre["SUB"] = sub
+                    p.mark = (len(p.conds), len(p.events))
+                    p.phase = 2
+                else:
+                    p.upd["SUB"] = sub
+                    p.phase = 2
+                # the sub-iterator is pulled in the direction std would use: reversed iff a reversing method follows
+                c = call("Sub::%s" % cur_dir, None, get(p, "SUB"))
+                p.events.append(c)
+                q = p.fork()
+                q.conds.append(("is", c, 0))
+                finish(q, "back1" if V2 is not None else "back")
+                p.conds.append(("is", c, 1))
+                pay = ("vfield", c, 1, 0)
+                p.item = ("field", pay, 0)
+                put(p, "SUB", ("field", pay, 1))
+                nxt.append(p)
             elif m == "copied":
                 p.item = sym.mk_deref(p.item)
                 nxt.append(p)
             elif m == "enumerate":
                 v = "I%d" % j
                 p.item = ("agg", "tuple", get(p, v), p.item)
-                p.upd[v] = ("bin", "Add", get(p, v), sym.I(1))
+                put(p, v, ("bin", "Add", get(p, v), sym.I(1)))
                 nxt.append(p)
             elif m in ("filter", "take_while"):
                 c = call("pr", K + j, sym.mk_ref(p.item))
@@ -274,7 +344,7 @@ def reference(ch, V, src_ty, K):
                 v = "REM%d" % j
                 q = p.fork()
                 q.conds.append(table.ne(get(q, v), sym.I(0)))
-                q.upd[v] = ("bin", "Sub", get(q, v), sym.I(1))
+                put(q, v, ("bin", "Sub", get(q, v), sym.I(1)))
                 finish(q, "back")
                 p.conds.append(table.eq(get(p, v), sym.I(0)))
                 nxt.append(p)
@@ -284,24 +354,24 @@ def reference(ch, V, src_ty, K):
                 q.conds.append(table.eq(get(q, v), sym.I(0)))
                 finish(q, "exit")
                 p.conds.append(table.ne(get(p, v), sym.I(0)))
-                p.upd[v] = ("bin", "Sub", get(p, v), sym.I(1))
+                put(p, v, ("bin", "Sub", get(p, v), sym.I(1)))
                 nxt.append(p)
             elif m == "skip_while":
                 v = "STILL%d" % j
                 # not skipping any more: the predicate is not called
                 q = p.fork()
                 q.conds.append(("nholds", get(q, v)))
-                q.upd[v] = ("bool", False)
+                put(q, v, ("bool", False))
                 nxt.append(q)
                 c = call("pr", K + j, sym.mk_ref(p.item))
                 p.conds.append(("holds", get(p, v)))
                 p.events.append(c)
                 r = p.fork()
                 r.conds.append(("holds", c))
-                r.upd[v] = c
+                put(r, v, c)
                 finish(r, "back")
                 p.conds.append(("nholds", c))
-                p.upd[v] = c
+                put(p, v, c)
                 nxt.append(p)
             elif m == "zip":
                 v = "OIT%d" % j
@@ -313,7 +383,7 @@ def reference(ch, V, src_ty, K):
                 p.conds.append(("is", c, 1))
                 pay = ("vfield", c, 1, 0)
                 p.item = ("agg", "tuple", p.item, ("field", pay, 0))
-                p.upd[v] = ("field", pay, 1)
+                put(p, v, ("field", pay, 1))
                 nxt.append(p)
         if m == "rev":
             cur_dir = "next" if cur_dir == "next_back" else "next_back"
@@ -325,7 +395,7 @@ def reference(ch, V, src_ty, K):
             p.events.append(call("ea", kc, p.item))
             finish(p, "back")
         elif c_ == "count":
-            p.upd["RET"] = ("bin", "Add", get(p, "RET"), sym.I(1))
+            put(p, "RET", ("bin", "Add", get(p, "RET"), sym.I(1)))
             finish(p, "back")
         elif c_ in ("any", "all"):
             c = call("pr", kc, sym.mk_ref(p.item))
@@ -333,7 +403,7 @@ def reference(ch, V, src_ty, K):
             q = p.fork()
             hit = c_ == "any"
             q.conds.append(("holds", c) if hit else ("nholds", c))
-            q.upd["RET"] = ("bool", hit)
+            put(q, "RET", ("bool", hit))
             finish(q, "exit")
             p.conds.append(("nholds", c) if hit else ("holds", c))
             finish(p, "back")
@@ -342,14 +412,14 @@ def reference(ch, V, src_ty, K):
             p.events.append(c)
             q = p.fork()
             q.conds.append(("holds", c))
-            q.upd["RET"] = SOME(p.item)
+            put(q, "RET", SOME(p.item))
             finish(q, "exit")
             p.conds.append(("nholds", c))
             finish(p, "back")
         elif c_ == "find_map":
             c = call("fm", kc, p.item)
             p.events.append(c)
-            p.upd["RET"] = c
+            put(p, "RET", c)
             q = p.fork()
             q.conds.append(("is", c, 1))
             finish(q, "exit")
@@ -358,28 +428,28 @@ def reference(ch, V, src_ty, K):
         elif c_ in ("fold", "rfold"):
             c = call("fo", kc, get(p, "RET"), p.item)
             p.events.append(c)
-            p.upd["RET"] = c
+            put(p, "RET", c)
             finish(p, "back")
         elif c_ == "next":
-            p.upd["RET"] = SOME(p.item)
+            put(p, "RET", SOME(p.item))
             finish(p, "exit")
         elif c_ == "nth":
             q = p.fork()
             q.conds.append(table.eq(get(q, "NTH"), sym.I(0)))
-            q.upd["RET"] = SOME(p.item)
+            put(q, "RET", SOME(p.item))
             finish(q, "exit")
             p.conds.append(table.ne(get(p, "NTH"), sym.I(0)))
-            p.upd["NTH"] = ("bin", "Sub", get(p, "NTH"), sym.I(1))
+            put(p, "NTH", ("bin", "Sub", get(p, "NTH"), sym.I(1)))
             finish(p, "back")
         elif c_ in ("position", "rposition"):
             c = call("pr", kc, sym.mk_ref(p.item))
             p.events.append(c)
             q = p.fork()
             q.conds.append(("holds", c))
-            q.upd["RET"] = SOME(get(q, "POS"))
+            put(q, "RET", SOME(get(q, "POS")))
             finish(q, "exit")
             p.conds.append(("nholds", c))
-            p.upd["POS"] = ("bin", "Add", get(p, "POS"), sym.I(1))
+            put(p, "POS", ("bin", "Add", get(p, "POS"), sym.I(1)))
             finish(p, "back")
     return done
 
@@ -405,6 +475,8 @@ def state_vars(ch):
         out.append(("NTH", "param"))
     if c in ("position", "rposition"):
         out.append(("POS", sym.I(0)))
+    if ch.flat_at() is not None:
+        out.append(("SUB", "sub"))
     return out
 
 
@@ -433,7 +505,7 @@ def validate(ctx, prog, ch, idx, pnames, src_ty, K):
         return False
     try:
         paths = sym.through_loops(b, prog, keep_back=True, inline_all_loopfree=True, max_paths=3000,
-                                  opaque={"%s::%s::%s" % (W, s, d) for s in ("Src", "SrcR", "Oth") for d in ("next", "next_back")})
+                                  opaque=OPAQUE)
     except sym.TooManyPaths:
         ctx.violation("TV", key + "|paths", "too many paths for chain %s" % key)
         return False
@@ -533,6 +605,201 @@ def validate(ctx, prog, ch, idx, pnames, src_ty, K):
     return True
 
 
+OPAQUE = {"%s::%s::%s" % (W, s_, d_) for s_ in ("Src", "SrcR", "Oth", "Sub", "SrcS") for d_ in ("next", "next_back")}
+
+
+def symbols2(t, outer, inner):
+    if not isinstance(t, tuple) or not t:
+        return
+    if t[0] == "L":
+        (inner if len(t) == 3 else outer).add(t[1])
+        return
+    for x in t[1:]:
+        if isinstance(x, tuple):
+            symbols2(x, outer, inner)
+
+
+def validate_nested(ctx, prog, ch, idx, pnames, src_ty, K):
+    """chains with one flat_map/flatten: the generated code is an outer loop over the source and an (unlabelled) inner loop
+    over the sub-iterator; both iteration relations are compared with the composed schema, state symbol by state symbol"""
+    key = ch.name()
+    b = prog.get("%s::w%d" % (W, idx))
+    if b is None:
+        ctx.violation("TV", key + "|missing", "witness for chain %s missing" % key)
+        return False
+    try:
+        paths = sym.through_loops(b, prog, keep_back=True, nested=True, inline_all_loopfree=True, max_paths=6000, opaque=OPAQUE)
+    except sym.TooManyPaths:
+        ctx.violation("TV", key + "|paths", "too many paths for chain %s" % key)
+        return False
+    loop_paths = [p for p in paths if any(e[0] == "loop" for e in p.events) and p.kind != "panic"]
+    seqs = {tuple(e[1] for e in p.events if e[0] == "loop") for p in loop_paths}
+    h1s = {q[0] for q in seqs}
+    h2s = {q[1] for q in seqs if len(q) > 1}
+    if len(h1s) != 1 or len(h2s) > 1 or any(len(q) > 2 for q in seqs):
+        ctx.violation("TV", key + "|loops", "chain %s: expected an outer loop and at most one inner loop, got header sequences %s" % (key, sorted(seqs)))
+        return False
+    H1 = next(iter(h1s))
+    H2 = next(iter(h2s)) if h2s else None
+    all_vars = state_vars(ch)
+    names = [n for n, _ in all_vars]
+    # dry run of the schema: which state does it carry around which loop?
+    V0 = {n: ("L", -1 - i) for i, n in enumerate(names)}
+    V20 = {n: ("L", -1 - i, 0) for i, n in enumerate(names)}
+    dry = reference(ch, V0, src_ty, K, V20)
+    has_inner = any(r.kind == "back2" for r in dry)
+    # a state variable is carried by a loop when some path of that loop *reads* the value it had at the loop header
+    rd_o, rd_i = set(), set()
+    for r in dry:
+        for c in r.conds:
+            symbols2(c, rd_o, rd_i)
+        for e in r.events:
+            symbols2(e, rd_o, rd_i)
+        if r.kind == "exit" and isinstance(r.value, tuple):
+            symbols2(r.value, rd_o, rd_i)
+        if r.kind in ("back", "back1"):
+            for k, v in r.upd.items():
+                symbols2(v, rd_o, rd_i)
+        if r.kind == "back2":
+            for k, v in r.upd2.items():
+                symbols2(v, rd_o, rd_i)
+    chg_i, chg_o = set(), set()
+    for r in dry:
+        if r.kind == "back2":
+            chg_i |= {k for k, v in r.upd2.items() if v != V20[k]}
+        if r.kind in ("back", "back1", "back2"):
+            chg_o |= {k for k, v in r.upd.items() if v != V0[k]}
+    chg_o |= chg_i
+    # ... and some path of the loop changes it (a variable only assigned on the way out of a loop is not loop state)
+    inner_names = {n for i, n in enumerate(names) if (-1 - i) in rd_i and n in chg_i} if has_inner else set()
+    if has_inner:
+        inner_names.add("SUB")
+    outer_names = {n for i, n in enumerate(names) if ((-1 - i) in rd_o or n in inner_names) and n in chg_o}
+    outer_names.discard("SUB")
+    if has_inner != (H2 is not None):
+        ctx.violation("TV", key + "|loops", "chain %s: the schema %s an inner loop, the generated code %s" % (
+            key, "has" if has_inner else "has no", "has one" if H2 is not None else "has none"))
+        return False
+    if any(n not in ("RET", "ITER", "SUB") and n not in outer_names for n in names):
+        ctx.instance("TV-SKIP", key, nontrivial=False, sample={"chain": key, "why": "a counter is never carried around a loop (always-breaking consumer)"})
+        return True
+    used_o, used_i = set(), set()
+    for p in loop_paths:
+        for c in p.conds:
+            symbols2(c, used_o, used_i)
+        for e in p.events:
+            if e[0] == "call":
+                symbols2(e[2], used_o, used_i)
+            elif e[0] == "loop" and e[1] == H2:
+                for l, v in e[2]:
+                    symbols2(v, used_o, used_i)
+        if isinstance(p.value, tuple) and p.kind != "back":
+            symbols2(p.value, used_o, used_i)
+        if p.kind == "back":
+            for l, v in p.env.items():
+                symbols2(v, used_o, used_i)
+    # a local the inner loop carries but the outer body does not assign enters the inner loop with its outer-header value
+    for p in loop_paths:
+        for e in p.events:
+            if e[0] == "loop" and e[1] == H2:
+                d_ = dict(e[2])
+                used_o |= {l for l in used_i if l not in d_}
+    car_o, car_i = sorted(used_o), sorted(used_i)
+    exp_o = [(n, i) for n, i in all_vars if n in outer_names or n == "ITER"]
+    exp_i = [(n, i) for n, i in all_vars if n in inner_names]
+    if len(car_o) != len(exp_o) or len(car_i) != len(exp_i):
+        ctx.violation("TV", key + "|state", "chain %s: generated loops carry %d/%d state variables (outer/inner), the reference schema has %d/%d (%s / %s)" % (
+            key, len(car_o), len(car_i), len(exp_o), len(exp_i), [v for v, _ in exp_o], [v for v, _ in exp_i]),
+            detail={"outer": [b.local_name(l) or l for l in car_o], "inner": [b.local_name(l) or l for l in car_i], "source": source_of(ch, idx, K)[0]})
+        return False
+    V = {n: ("L", l) for (n, _), l in zip(exp_o, car_o)}
+    V2 = {n: ("L", l, H2) for (n, _), l in zip(exp_i, car_i)} if has_inner else None
+    if V2:
+        for n in V2:
+            if n in V and V[n][1] != V2[n][1]:
+                ctx.violation("TV", key + "|state", "chain %s: state %s is local %s in the outer loop but %s in the inner loop" % (key, n, V[n][1], V2[n][1]))
+                return False
+    for n, i in all_vars:
+        if n == "RET" and "RET" not in V:
+            V["RET"] = i
+    # initial values at the outer header
+    init = {}
+    for p in loop_paths:
+        for e in p.events:
+            if e[0] == "loop" and e[1] == H1:
+                init = dict(e[2])
+    for (name, want), l in zip(exp_o, car_o):
+        got = init.get(l)
+        if got is None:
+            continue
+        if isinstance(want, str):
+            if "('p'," not in repr(got):
+                ctx.violation("TV", key + "|init|" + name, "chain %s: state %s starts as %s, expected the corresponding argument" % (key, name, show(got)))
+        elif norm(got) != norm(want):
+            ctx.violation("TV", key + "|init|" + name, "chain %s: state %s starts as %s, expected %s" % (key, name, show(got), show(want)))
+
+    def nsig(conds1, ev1, pre, conds2, ev2, upd, kind, value):
+        return (frozenset(norm_cond(c) for c in conds1), tuple(norm(e) for e in ev1),
+                tuple(sorted((k, repr(norm(v))) for k, v in pre.items())),
+                frozenset(norm_cond(c) for c in conds2), tuple(norm(e) for e in ev2),
+                tuple(sorted((k, repr(norm(v))) for k, v in upd.items())) if kind != "exit" else (), kind,
+                repr(norm(value)) if kind == "exit" else None)
+    exp_sigs = {}
+    for r in reference(ch, V, src_ty, K, V2):
+        nc, ne = r.mark if r.mark is not None else (len(r.conds), len(r.events))
+        pre = {V2[k][1]: v for k, v in r.pre.items()} if V2 else {}
+        if r.kind == "back2":
+            upd = {V2[k][1]: v for k, v in r.upd2.items() if v != V2[k]}
+        else:
+            upd = {V[k][1]: v for k, v in r.upd.items() if k in V and isinstance(V[k], tuple) and V[k][0] == "L" and v != V[k]}
+        exp_sigs[nsig(r.conds[:nc], r.events[:ne], pre, r.conds[nc:], r.events[ne:], upd, r.kind, r.value)] = r
+    got_sigs = {}
+    for p in loop_paths:
+        ev1, ev2, pre = [], [], {}
+        n1 = n2 = None
+        seg = 0
+        for e in p.events:
+            if e[0] == "loop":
+                if e[1] == H1:
+                    seg, n1 = 1, e[3]
+                else:
+                    seg, n2 = 2, e[3]
+                    d_ = dict(e[2])
+                    pre = {l: d_.get(l, ("L", l)) for l in car_i}
+            elif e[0] == "call" and e[1].startswith(W + "::"):
+                (ev1 if seg == 1 else ev2 if seg == 2 else []).append(e[2])
+        conds1 = p.conds[n1:n2] if n2 is not None else p.conds[n1:]
+        conds2 = p.conds[n2:] if n2 is not None else ()
+        upd = {}
+        if p.kind == "back" and p.value == H2:
+            kind = "back2"
+            for l in car_i:
+                v = p.env.get(l, ("L", l, H2))
+                if v != ("L", l, H2):
+                    upd[l] = v
+        elif p.kind == "back":
+            kind = "back1" if n2 is not None else "back"
+            for l in car_o:
+                same = ("L", l, H2) if (n2 is not None and l in car_i) else ("L", l)
+                v = p.env.get(l, same)
+                if v != same:
+                    upd[l] = v
+        else:
+            kind = "exit"
+        got_sigs[nsig(conds1, ev1, pre, conds2, ev2, upd, kind, p.value)] = p
+    missing = [s_ for s_ in exp_sigs if s_ not in got_sigs]
+    extra = [s_ for s_ in got_sigs if s_ not in exp_sigs]
+    if missing or extra:
+        def d(s_):
+            return {"outer_conds": sorted(map(str, s_[0]))[:8], "outer_events": [str(e)[:90] for e in s_[1]], "inner_entry": s_[2],
+                    "inner_conds": sorted(map(str, s_[3]))[:8], "inner_events": [str(e)[:90] for e in s_[4]], "updates": s_[5], "end": s_[6], "value": s_[7]}
+        ctx.violation("TV", key, "chain `%s`: the generated loops' iteration relations differ from the std-derived schema (%d expected paths not "
+                      "generated, %d generated paths not expected)" % (key, len(missing), len(extra)),
+                      detail={"source": source_of(ch, idx, K)[0], "not_generated": [d(s_) for s_ in missing[:3]], "unexpected": [d(s_) for s_ in extra[:3]]})
+        return False
+    return True
+
+
 def enumerate_chains(ctx):
     chains = []
     for a in ADAPTERS:
@@ -544,11 +811,17 @@ def enumerate_chains(ctx):
     for a1, a2 in itertools.product(ADAPTERS, repeat=2):
         for c in trio:
             chains.append(Chain([a1, a2], c))
+    for c in CONSUMERS:
+        for f in FLATS:
+            chains.append(Chain([f], c))
+            for a in ADAPTERS:
+                chains.append(Chain([f, a], c))
+                chains.append(Chain([a, f], c))
     if ctx.tier == "thorough":
         rng = random.Random(ctx.seed)
-        for _ in range(1500):
+        for _ in range(2500):
             n = 3
-            chains.append(Chain([rng.choice(ADAPTERS) for _ in range(n)], rng.choice(CONSUMERS)))
+            chains.append(Chain([rng.choice(ADAPTERS + FLATS) for _ in range(n)], rng.choice(CONSUMERS)))
     seen = set()
     out = []
     for ch in chains:
@@ -627,7 +900,7 @@ def run(ctx):
         prog.raw_index = dict(base.raw_index)
         prog.add_crate(f)
         for ch, i, pn, st, K in meta:
-            ok = validate(ctx, prog, ch, i, pn, st, K)
+            ok = (validate_nested if ch.flat_at() is not None else validate)(ctx, prog, ch, i, pn, st, K)
             n_ok += ok
             ctx.instance("TV", ch.name(), sample={"chain": ch.name()} if len(samples) < 0 else None)
             if len(samples) < 8 and ok:
